@@ -46,6 +46,7 @@ def e2(ctx):
                 continue
             for pat, src in zip(pats, srcs):
                 ident = f"E2:cfg{ci}:{src!r}"
+                neg = src.startswith("!")
                 if ci > 0 and src in scn.DEFAULT_EXCLUDES:
                     continue    # built-ins are decided once (cfg0)
                 if pat.regex is None:
@@ -60,11 +61,14 @@ def e2(ctx):
                 s.add(z3.InRe(p, relpath))
                 try:
                     real_re = re2z3.translate(pat.regex.pattern)
-                    ref_re = re2z3.translate("^" + h.ref_regex(src) + "$")
+                    ref_re = re2z3.translate("^" + h.ref_regex(src[1:] if neg else src) + "$")
                 except re2z3.Unsupported as e:
                     ctx.inconclusive_(ident, f"regex construct not translated: {e}")
                     continue
-                s.add(z3.Xor(z3.InRe(p, real_re), z3.And(z3.InRe(p, ref_re), z3.BoolVal(bool(pat.include)))))
+                if bool(pat.include) == neg:
+                    ctx.violation(f"entry-polarity:{src}", f"exclusion entry {src!r} compiled with include={pat.include}", {"entry": src})
+                    continue
+                s.add(z3.Xor(z3.InRe(p, real_re), z3.InRe(p, ref_re)))
                 r = str(s.check())
                 dt = time.time() - t0
                 if r == "unsat":
@@ -73,7 +77,7 @@ def e2(ctx):
                     w = s.model()[p].as_string()
                     import re as _re
                     real_m = bool(pat.regex.match(w))
-                    ref_m = bool(_re.fullmatch(h.ref_regex(src), w))
+                    ref_m = bool(_re.fullmatch(h.ref_regex(src[1:] if neg else src), w))
                     if real_m != ref_m:
                         ctx.violation(f"exclusion-semantics:{h.classify(src)}", f"entry {src!r}: path {w!r} is {'matched' if real_m else 'not matched'} by the compiled spec but {'is' if ref_m else 'is not'} excluded by the reference semantics", {"entry": src, "path": w}, dt)
                     else:
@@ -92,7 +96,7 @@ def run(ctx):
     e2(ctx)
     T = 300 if ctx.quick() else 1500
     jobs = []
-    combos = [(0, 0), (0, 1), (1, 0), (1, 2), (2, 0), (2, 3), (3, 1), (3, 4), (2, 5), (1, 5), (4, 0), (4, 2)] if ctx.quick() else [(c, r) for c in range(5) for r in range(6)]
+    combos = [(0, 0), (0, 1), (1, 0), (1, 2), (2, 0), (2, 3), (3, 1), (3, 4), (2, 5), (1, 5), (4, 0), (4, 2), (5, 0), (5, 1)] if ctx.quick() else [(c, r) for c in range(6) for r in range(6)]
     for c, r in combos:
         jobs.append(Job("c11.py", "h_scan", {"cfg": c, "root": r, "fix_f1": 0}, T, 60, tag=f"scan cfg{c} root#{r}", meta={"sigtag": "scan-selection", "twin": c == 0 and r == 0}))
     for f1 in ((1, 3, 5, 12) if ctx.quick() else range(1, 13)):
